@@ -210,6 +210,49 @@ def r6(ctx):
             k += 1
             used = [s for s in stores if mentions(s[0], lambda x: x == we)]
             ctx.check(bool(used), "remember-transmitted@%s#%d" % (name, k), "the response returned by write_solicited (with the transmitted IIN / CON) is what is stored for echoing", body.where(w.idx), bad_detail="the value returned by write_solicited is dropped: what is remembered for echoing is the response *before* transmission (without the dynamic IIN bits / forced CON), so an echo differs from the fragment that was sent")
+    # LastValidRequest is Copy: storing `Some(result)` into the session state takes a snapshot, so every update of `result`
+    # (the transmitted response header, the series) has to come BEFORE the store - one made after it is silently lost and the
+    # echo served from memory is the response as it was before transmission
+    for d in TOP:
+        body = prog.abody(d)
+        sym = ctx.sym(body)
+        name = d.split("::")[-1]
+        succ, pred = body.cfg
+        for b, si, st in body.assigns():
+            if not st.dest.proj or st.dest.proj[-1] != ".last_valid_request":
+                continue
+            rv = st.rv
+            if rv["k"] == "use" and not rv["a"].is_const() and rv["a"].place.is_local():
+                ds = [d_ for d_ in body.defs.get(rv["a"].place.local, []) if d_[0] in body.live_blocks() and d_[1] != "term"]
+                if len(ds) == 1:
+                    rv = body.blocks[ds[0][0]].stmts[ds[0][1]].rv
+            if rv["k"] != "agg" or rv.get("var") != "Some":
+                continue
+            src = rv["ops"][0]
+            if src.is_const() or not src.place.is_local():
+                continue
+            L = src.place.local
+            for _ in range(4):  # through the compiler's copy temporaries to the user's variable
+                ds = [d_ for d_ in body.defs.get(L, []) if d_[0] in body.live_blocks() and d_[1] != "term"]
+                if len(ds) != 1 or body.local_name(L):
+                    break
+                rv2 = body.blocks[ds[0][0]].stmts[ds[0][1]].rv
+                if rv2["k"] == "use" and not rv2["a"].is_const() and rv2["a"].place.is_local():
+                    L = rv2["a"].place.local
+                else:
+                    break
+            after = set()
+            for s_ in succ[b.idx]:
+                after |= body.reachable(s_)
+            late = []
+            for b2, si2, st2 in body.assigns():
+                if st2.dest.local == L and st2.dest.proj and ((b2.idx in after and b2.idx != b.idx) or (b2.idx == b.idx and si2 > si)):
+                    late.append(b2.idx)
+            for b2 in body.calls():
+                d2 = b2.term.d["d"]
+                if d2.local == L and d2.proj and b2.idx in after:
+                    late.append(b2.idx)
+            ctx.check(not late, "record-after-last-update@%s" % name, "`%s` is stored into last_valid_request after its last update" % (body.local_name(L) or "_%d" % L), body.where(b.idx), bad_detail="`%s` is copied into last_valid_request and modified afterwards (%s): the remembered response is not the one transmitted" % (body.local_name(L) or "_%d" % L, ", ".join(body.where(x) for x in late[:3])))
     # every request-bearing non-READ arm records the request (seq + digest of THIS request), response or not
     cl = lambda x: mentions_call(x, r"OutstationSession::classify$")
     for d in ("OutstationSession::process_request_from_idle", "OutstationSession::wait_for_unsolicited_confirm"):
